@@ -53,6 +53,18 @@ def run(tier, seed):
         "samples": ce.sample_of(traces[0]) if traces else [],
         "max_unsynced_units": st["max_pending_units"], "generations": st["gens"],
     }
+    # concurrent flush() callers while a reader keeps a superseded generation pinned: an Ok from any of
+    # them means the retirement is on the device (FlushAckComplete, LinTrace)
+    import concengine as cc
+    from checks.c07 import collect
+    cst = {"traces": 0, "states": 0, "transitions": 0, "schedules": 0, "stalls": 0, "events": 0}
+    fam = cc.ack_flush_family()
+    if tier == "quick":
+        fam = [x for x in fam if "_multi_get_" in x[0] or "_single_range_" in x[0]]
+    res = cc.run_dfs(fxv, rd, fam, "ackflush", chunk=1, maxsched=150 if tier == "quick" else 800, preempt=3, par=8)
+    collect(PROP, res, rd, ["FlushAckComplete"], viol, cst)
+    st["states"] += cst["states"]
+    st["transitions"] += cst["transitions"]
     viol = mc_viol + viol
     return {"level": "model_checking", "coverage": cov, "violations": viol,
             "assumptions": ["device observer sees every write and fsync (checked by the byte-for-byte replay in selftest)",
